@@ -23,6 +23,23 @@ class Flow:
         self.prog = prog or pyfacts.Program(tree)
         self._paths = {}
 
+    def describe(self, rep):
+        """what was parsed: modules, functions, call sites and how many of them resolve"""
+        prog = self.prog
+        nf = sum(len(m.all_funcs) for m in prog.modules.values())
+        tot = res = 0
+        for m in prog.modules.values():
+            for f in m.all_funcs:
+                for call, r in prog.call_sites(f):
+                    tot += 1
+                    if r is not None and r[0] != "method?":
+                        res += 1
+        rep.analysed["python source"] = {"modules": len(prog.modules), "functions (incl. methods, nested)": nf,
+                                         "classes": sum(len(prog._all_classes(m)) for m in prog.modules.values()),
+                                         "call sites": tot, "call sites resolved statically (rest: methods of untyped receivers = str/list/numpy/Qiskit objects)": res}
+        if len(prog.modules) < 12 or nf < 150:
+            raise AnalysisError(f"only {len(prog.modules)} modules / {nf} functions parsed: the package has shrunk below what was confirmed by hand (13 modules, 189 functions)")
+
     def paths(self, fq):
         if fq not in self._paths:
             f = self.prog.func(fq)
